@@ -97,6 +97,19 @@ def make_jobs(chk):
                 n += 1
                 jobs.append(SessionJob("e%d:stacklimit:%d" % (n, items), bytes([O["TOALTSTACK"]]) * alt + b"\x51", [b"\x07"] * (items + alt), [], sv,
                                        cmds=["step"] * alt + ["exec " + toks, "steps"], cmp=CMP))
+    # lock-time opcodes typed at the prompt: operand width up to five bytes, sign, CSV's disable bit (bit 31), flag on and off, no transaction
+    lockvals = ["0000008000", "ffffffff00", "0000408000", "0000000001", "0000000081", "01", "81", "ffffff7f", "000000800000", "00000080", ""]
+    for opn in ("CHECKSEQUENCEVERIFY", "CHECKLOCKTIMEVERIFY"):
+        for v in lockvals:
+            for fl in ([], [opn], [opn, "MINIMALDATA"], drivers.STANDARD):
+                for sv in ("BASE", "TAPSCRIPT"):
+                    n += 1
+                    jobs.append(SessionJob("e%d:locktime:%s" % (n, sv), b"\x51\x52\x93", [], fl, sv, cmds=["step", "exec %s OP_%s OP_DROP 7" % (v or "OP_0", opn), "steps"], cmp=CMP))
+    # hash opcodes on typed pushes across the 64-byte block boundaries
+    for opn in ("SHA1", "SHA256", "RIPEMD160", "HASH160", "HASH256"):
+        for ln in (1, 55, 56, 57, 63, 64, 65, 119, 120, 121, 184, 248, 504, 520):
+            n += 1
+            jobs.append(SessionJob("e%d:hash:%s:%d" % (n, opn, ln), b"\x51\x52\x93", [], [], ("BASE", "TAPSCRIPT")[n % 2], cmds=["step", "exec %s OP_%s" % (bytes((i * 7 + ln) % 256 for i in range(ln)).hex(), opn), "steps"], cmp=CMP))
     # op-count budget shared between script and exec: near the limit
     base = b"\x51" + bytes([O["NOP"]]) * 150
     for extra in (49, 50, 51, 52):
